@@ -14,6 +14,41 @@ pub mod collections;
 
 mod alloc;
 
+#[cfg(feature = "verif_hooks")]
+#[doc(hidden)]
+#[allow(missing_docs)]
+pub mod verif_hooks {
+    //! Verification-only instrumentation (cargo feature `verif_hooks`, off by
+    //! default): reports which chunk footer each bookkeeping store targets.
+    use core::sync::atomic::{AtomicUsize, Ordering};
+
+    pub type FooterStoreHook = fn(footer: *const u8, site: u8);
+
+    static HOOK: AtomicUsize = AtomicUsize::new(0);
+
+    pub fn set_footer_store_hook(hook: Option<FooterStoreHook>) {
+        HOOK.store(hook.map_or(0, |h| h as usize), Ordering::SeqCst);
+    }
+
+    pub fn empty_chunk_addr() -> *const u8 {
+        crate::EMPTY_CHUNK.get().as_ptr() as *const u8
+    }
+
+    pub fn footer_size() -> usize {
+        crate::FOOTER_SIZE
+    }
+
+    #[inline]
+    pub(crate) fn footer_store(footer: *const u8, site: u8) {
+        let h = HOOK.load(Ordering::Relaxed);
+        if h != 0 {
+            let f: FooterStoreHook = unsafe { core::mem::transmute(h) };
+            f(footer, site);
+        }
+    }
+}
+
+
 use core::cell::Cell;
 use core::cmp::Ordering;
 use core::fmt::Display;
@@ -923,6 +958,8 @@ impl<const MIN_ALIGN: usize> Bump<MIN_ALIGN> {
         // of the chunks, not how much of the chunks are used.
         let allocated_bytes = prev.as_ref().allocated_bytes + new_size_without_footer;
 
+        #[cfg(feature = "verif_hooks")]
+        crate::verif_hooks::footer_store(footer_ptr as *const u8, 0);
         ptr::write(
             footer_ptr,
             ChunkFooter {
@@ -979,6 +1016,8 @@ impl<const MIN_ALIGN: usize> Bump<MIN_ALIGN> {
             let mut cur_chunk = self.current_chunk_footer.get();
 
             // Deallocate all chunks except the current one
+            #[cfg(feature = "verif_hooks")]
+            crate::verif_hooks::footer_store(cur_chunk.as_ptr() as *const u8, 1);
             let prev_chunk = cur_chunk.as_ref().prev.replace(EMPTY_CHUNK.get());
             dealloc_chunk_list(prev_chunk);
 
@@ -1227,6 +1266,8 @@ impl<const MIN_ALIGN: usize> Bump<MIN_ALIGN> {
                         // to its original value upon entry to this method
                         // (reclaiming any alignment padding we may have
                         // added).
+                        #[cfg(feature = "verif_hooks")]
+                        crate::verif_hooks::footer_store(current_footer_p.as_ptr() as *const u8, 2);
                         current_ptr.set(rewind_ptr);
                     } else {
                         // We allocated a new chunk for this result.
@@ -1244,6 +1285,8 @@ impl<const MIN_ALIGN: usize> Bump<MIN_ALIGN> {
                         // Because this is the only allocation in this chunk,
                         // we can reset the chunk's bump finger to the start of
                         // the chunk.
+                        #[cfg(feature = "verif_hooks")]
+                        crate::verif_hooks::footer_store(current_footer_p.as_ptr() as *const u8, 3);
                         current_ptr.set(current_footer_p.as_ref().data);
                     }
                 }
@@ -1335,6 +1378,8 @@ impl<const MIN_ALIGN: usize> Bump<MIN_ALIGN> {
                         // to its original value upon entry to this method
                         // (reclaiming any alignment padding we may have
                         // added).
+                        #[cfg(feature = "verif_hooks")]
+                        crate::verif_hooks::footer_store(current_footer_p.as_ptr() as *const u8, 4);
                         current_ptr.set(rewind_ptr);
                     } else {
                         // We allocated a new chunk for this result.
@@ -1352,6 +1397,8 @@ impl<const MIN_ALIGN: usize> Bump<MIN_ALIGN> {
                         // Because this is the only allocation in this chunk,
                         // we can reset the chunk's bump finger to the start of
                         // the chunk.
+                        #[cfg(feature = "verif_hooks")]
+                        crate::verif_hooks::footer_store(current_footer_p.as_ptr() as *const u8, 5);
                         current_ptr.set(current_footer_p.as_ref().data);
                     }
                 }
@@ -1975,6 +2022,8 @@ impl<const MIN_ALIGN: usize> Bump<MIN_ALIGN> {
             debug_assert!(!aligned_ptr.is_null());
             let aligned_ptr = NonNull::new_unchecked(aligned_ptr);
 
+            #[cfg(feature = "verif_hooks")]
+            crate::verif_hooks::footer_store(footer_ptr.as_ptr() as *const u8, 6);
             footer.ptr.set(aligned_ptr);
             Some(aligned_ptr)
         }
@@ -2238,6 +2287,8 @@ impl<const MIN_ALIGN: usize> Bump<MIN_ALIGN> {
                 "bump pointer {ptr:#p} should be aligned to the minimum alignment of {MIN_ALIGN:#x}"
             );
             let ptr = NonNull::new_unchecked(ptr);
+            #[cfg(feature = "verif_hooks")]
+            crate::verif_hooks::footer_store(self.current_chunk_footer.get().as_ptr() as *const u8, 7);
             self.current_chunk_footer.get().as_ref().ptr.set(ptr);
         }
     }
@@ -2324,6 +2375,8 @@ impl<const MIN_ALIGN: usize> Bump<MIN_ALIGN> {
                 is_pointer_aligned_to(new_ptr.as_ptr(), MIN_ALIGN),
                 "bump pointer {new_ptr:#p} should be aligned to the minimum alignment of {MIN_ALIGN:#x}"
             );
+            #[cfg(feature = "verif_hooks")]
+            crate::verif_hooks::footer_store(footer as *const ChunkFooter as *const u8, 8);
             footer.ptr.set(new_ptr);
 
             // NB: we know it is non-overlapping because of the size check
